@@ -39,7 +39,13 @@ where
 
   fn actual_subscribe(self, observer: O) -> Self::Unsub {
     let Self { scheduler, dur, delay } = self;
-    scheduler.schedule(RepeatTask::new(dur, interval_task, observer), delay)
+    let task = match delay {
+      // `interval_at`: the first tick is due when the initial delay has
+      // elapsed, not one more period after subscription
+      Some(_) => RepeatTask::starting_now(dur, interval_task, observer),
+      None => RepeatTask::new(dur, interval_task, observer),
+    };
+    scheduler.schedule(task, delay)
   }
 }
 
